@@ -947,18 +947,145 @@ def sparse_dyadic(rng, shape, pzero=.35):
     return v
 
 
+class SP:
+    """sparse polynomial with Fraction coefficients in variables (argument name, multi-index): the exact-recomputation oracle for
+    polynomial expressions (value, Jacobian and second derivatives by formal differentiation, independent of nutils)"""
+    __slots__ = ('t',)
+
+    def __init__(self, t=None):
+        self.t = t if t is not None else {}
+
+    @staticmethod
+    def lift(v):
+        if isinstance(v, SP): return v
+        v = Fraction(v)
+        return SP({(): v} if v else {})
+
+    @staticmethod
+    def var(key):
+        return SP({((key, 1),): Fraction(1)})
+
+    def __add__(self, o):
+        o = SP.lift(o)
+        t = dict(self.t)
+        for m, cf in o.t.items():
+            v = t.get(m, 0) + cf
+            if v: t[m] = v
+            else: t.pop(m, None)
+        return SP(t)
+    __radd__ = __add__
+
+    def __mul__(self, o):
+        o = SP.lift(o)
+        t = {}
+        for m1, c1 in self.t.items():
+            for m2, c2 in o.t.items():
+                d = dict(m1)
+                for k, p in m2: d[k] = d.get(k, 0) + p
+                m = tuple(sorted(d.items()))
+                v = t.get(m, 0) + c1 * c2
+                if v: t[m] = v
+                else: t.pop(m, None)
+        return SP(t)
+    __rmul__ = __mul__
+
+    def deriv(self, key):
+        t = {}
+        for m, cf in self.t.items():
+            d = dict(m)
+            p = d.get(key)
+            if not p: continue
+            if p == 1: del d[key]
+            else: d[key] = p - 1
+            mm = tuple(sorted(d.items()))
+            t[mm] = t.get(mm, 0) + cf * p
+        return SP(t)
+
+    def eval(self, env):
+        tot = Fraction(0)
+        for m, cf in self.t.items():
+            for k, p in m: cf = cf * env[k] ** p
+            tot += cf
+        return tot
+
+
+def sp_interpret(ast, memo=None):
+    """object ndarray of SP for a polynomial AST (see random_polynomial)"""
+    op = ast[0]
+    if op == 'const':
+        out = numpy.empty(ast[1].shape, dtype=object)
+        for j in numpy.ndindex(*ast[1].shape): out[j] = SP.lift(Fraction(float(ast[1][j])))
+        return out
+    if op == 'arg':
+        out = numpy.empty(ast[2], dtype=object)
+        for j in numpy.ndindex(*ast[2]): out[j] = SP.var((ast[1], j))
+        return out
+    def boxed(x):
+        # numpy hands back the bare element for 0-d object results
+        if isinstance(x, numpy.ndarray): return x
+        out = numpy.empty((), dtype=object); out[()] = x
+        return out
+    if op == 'mul': return boxed(sp_interpret(ast[1]) * sp_interpret(ast[2]))
+    if op == 'add': return boxed(sp_interpret(ast[1]) + sp_interpret(ast[2]))
+    if op == 'sum':
+        a = sp_interpret(ast[1])
+        out = numpy.empty(a.shape[:-1], dtype=object)
+        for j in numpy.ndindex(*a.shape[:-1]):
+            out[j] = functools.reduce(lambda x, y: x + y, list(a[j]), SP())
+        return out
+    if op == 'transpose': return sp_interpret(ast[1]).transpose(ast[2])
+    if op == 'prepend':
+        a = sp_interpret(ast[1])
+        return numpy.broadcast_to(a, tuple(ast[2]) + a.shape)
+    raise AssertionError(op)
+
+
+def ev_interpret(ast, argmap):
+    """the same AST as an evaluable expression built from plain operations"""
+    op = ast[0]
+    if op == 'const': return ev.Constant(types.arraydata(numpy.asarray(ast[1], dtype=float)))
+    if op == 'arg': return argmap[ast[1]]
+    if op == 'mul': return ev_interpret(ast[1], argmap) * ev_interpret(ast[2], argmap)
+    if op == 'add': return ev_interpret(ast[1], argmap) + ev_interpret(ast[2], argmap)
+    if op == 'sum': return ev.Sum(ev_interpret(ast[1], argmap))
+    if op == 'transpose':
+        a = ev_interpret(ast[1], argmap)
+        return a if tuple(ast[2]) == tuple(range(a.ndim)) else ev.Transpose(a, tuple(ast[2]))
+    if op == 'prepend': return ev.prependaxes(ev_interpret(ast[1], argmap), tuple(ev.constant(n) for n in ast[2]))
+    raise AssertionError(op)
+
+
+def sp_env(args):
+    return {(k, j): Fraction(float(numpy.asarray(v)[j])) for k, v in args.items() for j in numpy.ndindex(*numpy.asarray(v).shape)}
+
+
+def sp_values(arr, env):
+    out = numpy.empty(arr.shape, dtype=float)
+    for j in numpy.ndindex(*arr.shape): out[j] = float(arr[j].eval(env))
+    return out
+
+
+def sp_derivative(arr, name, shape):
+    """object array of shape arr.shape + shape: formal partial derivatives w.r.t. every entry of argument `name`"""
+    out = numpy.empty(arr.shape + tuple(shape), dtype=object)
+    for i in numpy.ndindex(*arr.shape):
+        for j in numpy.ndindex(*shape):
+            out[i + j] = arr[i].deriv((name, j))
+    return out
+
+
 def random_polynomial(rng, argv):
-    """polynomial expression (plain operations of the Lean fragment) in the Arguments `argv` = [(Argument, shape)]; total degree <= 3;
-    returns (label, expression)"""
-    cst = lambda v: ev.Constant(types.arraydata(numpy.asarray(v, dtype=float)))
+    """random polynomial (total degree <= 3) in the arguments `argv` = [(name, shape)] as an AST over
+    const | arg | mul | add | sum (last axis) | transpose | prepend; returns (label, ast, result shape)"""
+    cst = lambda v: ('const', numpy.asarray(v, dtype=float))
     def power(a, p):
         out = a
-        for _ in range(p - 1): out = out * a
+        for _ in range(p - 1): out = ('mul', out, a)
         return out
-    def contract(a, shape, p, k):
-        # sum over ALL axes of the argument against a constant of shape k + shape
-        f = cst(sparse_dyadic(rng, k + shape)) * ev.prependaxes(power(a, p), tuple(ev.constant(n) for n in k))
-        for _ in shape: f = ev.Sum(f)
+    def contract(name, shape, p, k):
+        # sum over ALL axes of the argument against a sparse constant of shape k + shape
+        f = ('mul', cst(sparse_dyadic(rng, k + shape)), ('prepend', power(('arg', name, shape), p), k))
+        for _ in shape: f = ('sum', f)
         return f
     kind = rng.choice(['contract', 'contract', 'partial'])
     if kind == 'partial' and not any(len(sh) >= 2 for _, sh in argv): kind = 'contract'
@@ -967,39 +1094,80 @@ def random_polynomial(rng, argv):
         terms = []
         for _ in range(rng.choice([2, 3])):
             budget = 3; term = None
-            for a, shape in rng.sample(argv, rng.randint(1, min(2, len(argv)))):
+            for name, shape in rng.sample(argv, rng.randint(1, min(2, len(argv)))):
                 p = rng.randint(1, min(2, budget)); budget -= p
-                f = contract(a, shape, p, k)
-                term = f if term is None else term * f
+                f = contract(name, shape, p, k)
+                term = f if term is None else ('mul', term, f)
                 if budget <= 0: break
             terms.append(term)
-        e = functools.reduce(lambda x, y: x + y, terms) + cst(sparse_dyadic(rng, k, 0.))
-        return 'contract%s' % (k,), e
+        e = functools.reduce(lambda x, y: ('add', x, y), terms + [cst(sparse_dyadic(rng, k, 0.))])
+        return 'contract%s' % (k,), e, k
     # 'partial': the result keeps some axes of a high-rank argument (transposed), the others are contracted; another argument enters
     # through a broadcast over the kept axes
-    a, shape = rng.choice([t for t in argv if len(t[1]) >= 2])
+    name, shape = rng.choice([t for t in argv if len(t[1]) >= 2])
     nd = len(shape)
     axes = list(range(nd)); rng.shuffle(axes)
-    q = cst(sparse_dyadic(rng, shape)) * power(a, rng.choice([1, 2])) + a * cst(sparse_dyadic(rng, shape))
-    q = ev.Transpose(q, tuple(axes))
+    a = ('arg', name, shape)
+    q = ('add', ('mul', cst(sparse_dyadic(rng, shape)), power(a, rng.choice([1, 2]))), ('mul', a, cst(sparse_dyadic(rng, shape))))
+    q = ('transpose', q, tuple(axes))
+    tshape = tuple(shape[i] for i in axes)
     nkeep = rng.choice([1, 1, 2]) if nd > 2 else 1
-    for _ in range(nd - nkeep): q = ev.Sum(q)
-    others = [t for t in argv if t[0] is not a]
+    for _ in range(nd - nkeep): q = ('sum', q)
+    kshape = tshape[:nkeep]
+    others = [t for t in argv if t[0] != name]
     if others:
         b, bshape = rng.choice(others)
-        q = q * ev.prependaxes(contract(b, bshape, 1, ()), q.shape) + q
-    return 'partial(axes %s keep %d)' % (axes, nkeep), q
+        q = ('add', ('mul', q, ('prepend', contract(b, bshape, 1, ()), kshape)), q)
+    return 'partial(axes %s keep %d)' % (axes, nkeep), q, kshape
 
 
 FACTOR_MAX_ENTRIES = 600
 
 
-def stream_factor(c, J, n):
-    """Monomial._derivative: evaluable.factor of random polynomials in arguments of 0..4 axes with pairwise different axis lengths; first
-    derivatives w.r.t. every argument and mixed second derivatives of the FACTORED form, against the formal Jacobian of the un-factored
-    polynomial (Lean) and finite differences; the un-factored polynomial goes through the ordinary symbolic check"""
+def stream_factor(c, J, n, nlean=0):
+    """Monomial._derivative: evaluable.factor (and function.factor) of random polynomials in arguments of 0..4 axes with pairwise different
+    axis lengths; first derivatives w.r.t. every argument and (mixed) second derivatives of the FACTORED form, un-simplified and simplified,
+    evaluated by the real code and compared with the exact Jacobian of the polynomial (formal differentiation of a sparse polynomial with
+    Fraction coefficients, independent of nutils); candidates are confirmed with finite differences of the real evaluation.  The first
+    `nlean` first-derivative cases with few entries additionally go through the Lean check against the un-factored expression."""
     cases = []
     rng = c.rng
+    def judge(label, tree_tag, d, args, exact, e_real, e_for_fd, wrt, second):
+        """d: derivative tree of e_real w.r.t. argument wrt; exact: the exact Jacobian; e_for_fd: () -> real expression whose finite
+        differences confirm a candidate (the differentiated expression itself, or for second derivatives the first derivative of the
+        un-factored expression)"""
+        kd, dv = X.real_eval(d, args)
+        c.case(('factor', label, tree_tag, getattr(d, '__nutils_hash__', id(d))))
+        if kd == 'ok' and dv.shape == exact.shape and rel_close(dv, exact, 1e-9):
+            J.outcome['factor:equals-exact-polynomial-jacobian:' + tree_tag] += 1; J.nnum += 1
+            return
+        # candidate: the real derivative value differs from the exact derivative of the polynomial (or cannot be evaluated)
+        if kd == 'ok':
+            sig = 'derivative-wrong:Monomial(factor)'
+            if any(v_[2] == sig for v_ in c.violations):
+                J.outcome['factor:candidate:same-signature-already-reported'] += 1; return
+            ref = e_for_fd()
+            v, Jfd = fd_verdict(ref, dv, args, wrt) if ref is not None else ('unreliable', None)
+            if v == 'agree':
+                c.broken_no_input('corr:exact-polynomial-oracle', 'exact polynomial Jacobian differs from the real derivative value, but finite differences of the real code agree with the real derivative',
+                                  dict(label=label, real=dv.tolist(), exact=exact.tolist()))
+                return
+            J.outcome['factor:candidate:fd-' + v] += 1
+            what = 'differs from the exact Jacobian of the polynomial' + ('; confirmed by 6-point finite differences of the real eval_once' if v == 'disagree' else '')
+        else:
+            J.outcome['factor:derivative-not-evaluable:%s' % kd] += 1
+            sig = 'derivative-evaluation-%s:Monomial(factor)' % ('raises:' + type(dv).__name__ if kd == 'exception' else kd)
+            what = 'cannot be evaluated (%s: %r) although the expression is a polynomial' % (kd, dv if kd == 'exception' else None)
+        J.fail(sig, 'the %s %s derivative tree of %s %s' % (tree_tag, 'second' if second else 'first', label, what),
+               dict(stream='factor', label=label, wrt=wrt, which=tree_tag, expr=X.describe(e_real, args), pickled=pack(e_real, args),
+                    real_derivative=dv.tolist() if kd == 'ok' else repr(dv), expected=exact.tolist()))
+        J.outcome['VIOLATION'] += 1
+    def trees(d):
+        out = [('raw', d)]
+        ks, s_ = safe_simplified(d)
+        if ks == 'ok' and s_ is not d: out.append(('simplified', s_))
+        elif ks != 'ok': J.outcome['factor:derivative-simplify-' + ks] += 1
+        return out
     for i in range(n):
         nargs = rng.choice([1, 2, 2, 3])
         ranks = [rng.choice([3, 3, 4])] + [rng.choice([0, 1, 1, 2, 2, 3]) for _ in range(nargs - 1)]
@@ -1007,40 +1175,89 @@ def stream_factor(c, J, n):
         argv, args = [], {}
         for j, r in enumerate(ranks):
             shape = distinct_shape(rng, r)
-            name = 'pqr'[j]
-            argv.append((A(name, *shape), shape)); args[name] = dyadic(rng, shape)
+            argv.append(('pqr'[j], shape)); args['pqr'[j]] = dyadic(rng, shape)
+        api = rng.choice(['evaluable', 'evaluable', 'function'])
         try:
-            label, poly = random_polynomial(rng, argv)
+            plabel, ast, eshape = random_polynomial(rng, argv)
+            sp = sp_interpret(ast)
+            if api == 'evaluable':
+                poly = ev_interpret(ast, {nm: A(nm, *sh) for nm, sh in argv})
+                kind, f = X.guarded(lambda: ev.factor(poly), 60)
+            else:
+                fpoly = function.Array.cast(ev_interpret_function(ast, {nm: function.Argument(nm, sh) for nm, sh in argv}))
+                poly = fpoly.as_evaluable_array
+                kind, ff = X.guarded(lambda: function.factor(fpoly), 60)
+                f = ff.as_evaluable_array if kind == 'ok' else ff
         except Exception as ex:
             J.outcome['factor:generator-exception:' + type(ex).__name__] += 1; continue
-        label = 'factor(%s in %s)' % (label, ', '.join('%s%s' % (a.name, sh) for a, sh in argv))
-        kind, f = X.guarded(lambda: ev.factor(poly), 60)
+        label = '%s.factor(%s in %s)' % (api, plabel, ', '.join('%s%s' % t for t in argv))
         if kind != 'ok':
             J.outcome['factor-%s:%s' % (kind, type(f).__name__)] += 1; continue
-        # the factored VALUE is C02's business; a mismatch here would make the oracle meaningless
+        env = sp_env(args)
+        # oracle sanity + the factored VALUE (C02's business; a mismatch would make the comparison below meaningless)
+        want = sp_values(sp, env)
         k1, v1 = X.real_eval(f, args); k2, v2 = X.real_eval(poly, args)
-        if k1 != 'ok' or k2 != 'ok' or not X.arrays_close(v1, v2):
+        if k2 != 'ok' or v2.shape != want.shape or not rel_close(v2, want, 1e-12):
+            c.broken_no_input('corr:exact-polynomial-oracle', 'the exact polynomial value differs from the real evaluation of the un-factored expression', dict(label=label, real=repr(v2), exact=want.tolist()))
+            continue
+        if k1 != 'ok' or not rel_close(v1, want, 1e-9):
             J.outcome['factor:value-differs-from-unfactored'] += 1; continue
-        for k, v in collections.Counter(type(nd).__name__ for nd in shrink.all_nodes(f) if type(nd).__name__ == 'Monomial').items(): c.count('factor:' + k, v)
-        used = [(a, sh) for a, sh in argv if find_argument(poly, a.name) is not None]
-        for a, sh in used:
-            c.count('factor:wrt-rank-%d' % len(sh))
-            if static_size(poly) * int(numpy.prod(sh, dtype=int)) > FACTOR_MAX_ENTRIES:
+        c.count('factor:Monomial-nodes', sum(1 for nd in shrink.all_nodes(f) if type(nd).__name__ == 'Monomial'))
+        used = [(nm, sh) for nm, sh in argv if find_argument(poly, nm) is not None]
+        for nm, sh in used:
+            size = int(numpy.prod(sh, dtype=int))
+            if static_size(poly) * size > FACTOR_MAX_ENTRIES:
                 J.outcome['skipped-too-many-jacobian-entries'] += 1; continue
-            cases += derivative_case(c, 'factor', label + ' wrt ' + a.name, f, a.name, args, second=False, outcome=J.outcome, e_lean=poly, jacpt=True, max_entries=FACTOR_MAX_ENTRIES)
+            c.count('factor:wrt-rank-%d' % len(sh))
+            var = find_argument(f, nm)
+            if var is None: var = A(nm, *sh)
+            kd, d1 = safe_derivative(f, var)
+            if kd != 'ok':
+                J.outcome['factor:derivative-%s' % kd] += 1
+                if not (kd == 'exception' and isinstance(d1, NotImplementedError)):
+                    J.fail('derivative-raises:%s:%s' % (type(d1).__name__ if d1 is not None else 'hang', (raising_rule(d1) if d1 is not None else None) or 'Monomial(factor)'),
+                           'evaluable.derivative raises %r on %s' % (d1, label), dict(stream='factor', label=label, wrt=nm, expr=X.describe(f, args), pickled=pack(f, args)))
+                continue
+            sp1 = sp_derivative(sp, nm, sh)
+            exact1 = sp_values(sp1, env)
+            for tag, d in trees(d1):
+                judge(label + ' wrt ' + nm, tag, d, args, exact1, f, (lambda: f), nm, False)
+            if nlean > 0 and static_size(poly) * size <= 24:
+                nlean -= 1
+                cases += derivative_case(c, 'factor', label + ' wrt ' + nm, f, nm, args, second=False, outcome=J.outcome, e_lean=poly, jacpt=True)
             # repeated differentiation of the factored form (the rule recurses through the Monomials it builds), mixed partials included
-            kd, d1 = safe_derivative(f, a)
-            kp, p1 = safe_derivative(poly, a)
-            if kd != 'ok' or kp != 'ok': continue
             seconds = [(b, shb) for b, shb in used if static_size(d1) * int(numpy.prod(shb, dtype=int)) <= FACTOR_MAX_ENTRIES]
             if seconds:
                 b, shb = rng.choice(seconds)
-                cases += derivative_case(c, 'factor', label + ' wrt %s, %s' % (a.name, b.name), d1, b.name, args, second=False, outcome=J.outcome, e_lean=p1, jacpt=True, max_entries=FACTOR_MAX_ENTRIES)
-        # the un-factored polynomial itself: ordinary symbolic check (its derivative trees serve as specification above)
-        a, sh = rng.choice(used) if used else (None, None)
-        if a is not None and static_size(poly) * int(numpy.prod(sh, dtype=int)) <= MAX_ENTRIES:
-            cases += derivative_case(c, 'factor-unfactored', label + ' wrt ' + a.name, poly, a.name, args, second=False, outcome=J.outcome)
+                var2 = find_argument(d1, b)
+                kd, d2 = safe_derivative(d1, var2 if var2 is not None else A(b, *shb))
+                if kd != 'ok':
+                    J.outcome['factor:second-derivative-%s' % kd] += 1
+                    if not (kd == 'exception' and isinstance(d2, NotImplementedError)):
+                        J.fail('derivative-raises:%s:%s' % (type(d2).__name__ if d2 is not None else 'hang', (raising_rule(d2) if d2 is not None else None) or 'Monomial(factor)'),
+                               'evaluable.derivative raises %r on the first derivative of %s' % (d2, label), dict(stream='factor', label=label, wrt=b, expr=X.describe(d1, args), pickled=pack(d1, args)))
+                    continue
+                c.count('factor:second-wrt-rank-%d-%d' % (len(sh), len(shb)))
+                exact2 = sp_values(sp_derivative(sp1, b, shb), env)
+                for tag, d in trees(d2):
+                    # finite differences of the first derivative of the UN-factored expression (the ordinary rules) as confirmation
+                    judge(label + ' wrt %s, %s' % (nm, b), tag, d, args, exact2, d1, (lambda: (lambda r: r[1] if r[0] == 'ok' else None)(safe_derivative(poly, find_argument(poly, nm)))), b, True)
     return cases
+
+
+def ev_interpret_function(ast, argmap):
+    """the polynomial AST through the function-level API (numpy operations on function.Array)"""
+    op = ast[0]
+    if op == 'const': return function.Array.cast(numpy.asarray(ast[1], dtype=float))
+    if op == 'arg': return argmap[ast[1]]
+    if op == 'mul': return ev_interpret_function(ast[1], argmap) * ev_interpret_function(ast[2], argmap)
+    if op == 'add': return ev_interpret_function(ast[1], argmap) + ev_interpret_function(ast[2], argmap)
+    if op == 'sum': return numpy.sum(ev_interpret_function(ast[1], argmap), -1)
+    if op == 'transpose': return numpy.transpose(ev_interpret_function(ast[1], argmap), ast[2])
+    if op == 'prepend':
+        a = ev_interpret_function(ast[1], argmap)
+        return numpy.broadcast_to(a, tuple(ast[2]) + tuple(a.shape)) if ast[2] else a
+    raise AssertionError(op)
 
 
 def stream_transformcoords(c, J):
